@@ -140,6 +140,20 @@ const Type* TypeChecker::unqualifiedAndResolved(const Type* ty)
     } while (true);
 }
 
+const Type* TypeChecker::valueTypeOf(const Type* ty)
+{
+    // The type of the value of an expression that isn't the operand of
+    // sizeof, _Alignof or unary &: an array is converted to a pointer to
+    // its first element (6.3.2.1-3).
+    auto coreTy = unqualifiedAndResolved(ty);
+    if (coreTy->kind() == TypeKind::Array) {
+        std::unique_ptr<PointerType> ptrTy(
+                    new PointerType(coreTy->asArrayType()->elementType()));
+        return semaModel_->keepType(std::move(ptrTy));
+    }
+    return coreTy;
+}
+
 bool TypeChecker::isAssignableType(const Type* ty, const SyntaxNode* node, bool isMember)
 {
     // A modifiable lvalue (6.3.2.1-1): not of array type, not const-qualified
@@ -1183,7 +1197,7 @@ SyntaxVisitor::Action TypeChecker::visitPrefixUnaryExpression(
             break;
         }
         case SyntaxKind::ExclamationToken: {
-            auto coreTy = unqualifiedAndResolved(ty_);
+            auto coreTy = valueTypeOf(ty_);
             if (!isScalarType(coreTy)) {
                 diagReporter_.ExpectedExpressionOfScalarType(node->operatorToken());
                 return typeCheckError(node);
@@ -1462,10 +1476,15 @@ const Type* typeOfBinaryLikeResult(const AssignmentExpressionSyntax*, const Type
 
 SyntaxVisitor::Action TypeChecker::visitBinaryExpression(const BinaryExpressionSyntax* node)
 {
+    // A string literal is left as it is (of array type).
     VISIT(node->left());
-    auto leftTy = unqualifiedAndResolved(ty_);
+    auto leftTy = node->left()->kind() == SyntaxKind::StringLiteralExpression
+            ? unqualifiedAndResolved(ty_)
+            : valueTypeOf(ty_);
     VISIT(node->right());
-    auto rightTy = unqualifiedAndResolved(ty_);
+    auto rightTy = node->right()->kind() == SyntaxKind::StringLiteralExpression
+            ? unqualifiedAndResolved(ty_)
+            : valueTypeOf(ty_);
 
     switch (node->operatorToken().kind()) {
         case SyntaxKind::AsteriskToken:
@@ -1675,7 +1694,7 @@ SyntaxVisitor::Action TypeChecker::visitAssignmentExpression(
         return Action::Quit;
     auto leftTy = unqualifiedAndResolved(ty_);
     VISIT(node->right());
-    auto rightTy = unqualifiedAndResolved(ty_);
+    auto rightTy = valueTypeOf(ty_);
 
     switch (node->operatorToken().kind()) {
         case SyntaxKind::EqualsToken:
@@ -1711,6 +1730,9 @@ bool TypeChecker::isTypeAssignableFromOtherType(
         const Type* otherTy,
         const SyntaxNode* node)
 {
+    ty = unqualifiedAndResolved(ty);
+    otherTy = valueTypeOf(otherTy);
+
     return ((isArithmeticType(ty) && isArithmeticType(otherTy))
             || (isStructureOrUnionType(ty)
                 && typesAreCompatible(ty, otherTy, false, false))
